@@ -379,6 +379,9 @@ class ProcTable:
             raise OverflowError("signed integer is greater than maximum" if pid > 0 else
                                 "signed integer is less than minimum")
         vk.access("kill", f"kill({pid},{int(sig)})")
+        if not 0 <= int(sig) <= 64:
+            # valid_signal() is checked before the target is looked up
+            raise OSError(errno.EINVAL, os.strerror(errno.EINVAL))
         if pid <= 0:
             vk.breaches.append(("kill_nonpositive_pid", pid, int(sig)))
             vk.events.append(("kill", pid, int(sig), None))
